@@ -176,13 +176,19 @@ add("C20", "other",
 # ---- additions of the last build session (appended to the texts above) ----------------------------------------------------------------
 _ACC = (" The read-only accessors through which the property is observed are under contract too (each returns exactly the attribute - or the "
         "documented function of attributes - that the other contracts constrain, and writes nothing): ")
+_GAMMA = (" The gammatone constructor's per-filter loop is under contract as a statement slice (eight per-filter lists as ghost lists, all flag "
+          "combinations, every order >= 1 and filter count): one entry per filter in every list in order, centre k the midpoint of edges k and k+1 "
+          "(centres strictly increasing), xi = 2 pi centre / rate, alpha and c positive, offset 0 unless max_centered (then -(order-1)/alpha), the "
+          "temporal support computed from the same filter's alpha / c / offset, supports_ang symmetric around xi and - without scale_l2_norm - of "
+          "strictly positive half-width with every log / square-root argument in its domain (centre strictly inside supports_hz), _wrap_below iff "
+          "some lower edge is negative, lists frozen into tuples, supports_hz = supports_ang in Hz.")
 EXTRA = {
     "C02": _ACC + "frame_style, frame_length, frame_shift, sampling_rate, kaldi_shift, bank, includes_energy, frame_length_ms, frame_shift_ms.",
     "C03": _ACC + "the short-integration computer's frame_style, frame_length, frame_shift, sampling_rate and the base class's frame_length_ms / frame_shift_ms.",
     "C04": _ACC + "`started` of both computers is the `_started` flag the method contracts set and reset.",
-    "C05": _ACC + "centers_hz (the inner vertices in order / the centres the constructor laid out), supports_hz (pair k = vertices k and k+2), num_filts, "
+    "C05": _GAMMA + _ACC + "centers_hz (the inner vertices in order / the centres the constructor laid out), supports_hz (pair k = vertices k and k+2), num_filts, "
                   "sampling_rate, scaled_l2_norm, erb, order of all four banks.",
-    "C07": _ACC + "is_real, is_analytic, is_zero_phase, supports, supports_hz of all four banks and the base class's supports_ms.",
+    "C07": _ACC + "is_real, is_analytic, is_zero_phase, supports, supports_hz of all four banks and the base class's supports_ms." + _GAMMA,
     "C08": " Nested components: for every constructor that accepts one (the three computers' bank and window, the three banks' scaling function) an "
            "AST-level data-flow obligation set shows that exactly the caller's argument goes to alias_factory_subclass_from_arg with the documented "
            "family, that the result replaces the argument before any other use and is never rebound, and that the optional window defaults to "
